@@ -43,6 +43,13 @@ func TestMain(m *testing.M) {
 		_, err := checkMnemonic(c)
 		return err
 	})
+	pbt.RegisterReplay("derive_next_pure", func(raw json.RawMessage) error {
+		var c type2Case
+		if err := json.Unmarshal(raw, &c); err != nil {
+			return err
+		}
+		return checkType2(c)
+	})
 	pbt.RegisterReplay("wif_roundtrip", func(raw json.RawMessage) error {
 		var c wifCase
 		if err := json.Unmarshal(raw, &c); err != nil {
